@@ -148,7 +148,7 @@ func C03(c *core.Ctx) {
 	c.SetCov("rule", "seeded randomised PFCP histories (1-3 peers, up to 5 live sessions, create/update/remove of PDR/FAR/QER, rejected requests, "+
 		"agent kill + restart against the populated datapath) executed against the real agent process; every step's BESS tables judged by TablesAreImage; "+
 		"in addition (GEN) TLC enumerates from spec/BessScript.tla every behaviour of 4 (thorough: 5) operations over {establish A / B, Update FAR, Update QER, Update PDR, new bearer, "+
-		"bearer removed, new CP F-SEID, delete, association release, SIGKILL + restart} for two sessions of different associations (1 770 / 19 385 scripts) and the harness replays each into the real agent; "+
+		"bearer removed, new CP F-SEID, delete, association release, SIGKILL + restart} for two sessions of different associations (2 211 / 26 256 scripts) and the harness replays each into the real agent; "+
 		"evaluations = script steps; distinct_nontrivial = steps that were accepted session requests")
 
 	// GEN: TLC enumerates the scripts (spec/BessScript.tla), the harness replays them into the real agent
